@@ -125,7 +125,8 @@ PROPS['C07'] = dict(
     technique='Kani loop-free wiring contracts: each delegating parse_* function is verified against a recording stand-in for its callee (callers are checked against callee interfaces, not bodies); state->value conversions verified field by field over all scalar values',
     level_text='proved (Kani, loop-free): all 13 delegation steps Beatmap -> HitObjects -> TimingPoints -> General (and -> Editor/Metadata/Colors/Difficulty/Events) call exactly the right inner parser once on exactly the right sub-state with the same line and return its Ok/Err; ignored sections return Ok(()); State->value conversions copy the format version and every scalar field bit-exactly',
     level_note='agreement of the nine decoders on every input follows because DecodeBeatmap::decode is one shared default method (no impl overrides decode or should_skip_line: scanned on every run); moved collections: breaks (order preserved) and the background file are checked on a two-break state (bounded), the others only for the empty case; the line is an arbitrary fixed text since the wiring does not inspect it',
-    verus=[], kani=['c07.kc', 'c07_tp.kc'],
+    verus=[], kani=['support.kc', 'c07.kc', 'c07_tp.kc', 'tp_lines.kc'],
+    only_prefix=['c07_'],
     kani_functions=['src/beatmap.rs :: impl DecodeBeatmap for Beatmap :: fn parse_* (11)', 'src/section/hit_objects/decode.rs :: impl DecodeBeatmap for HitObjects :: fn parse_* (11)',
                     'src/section/timing_points/decode.rs :: impl DecodeBeatmap for TimingPoints :: fn parse_* (11)', 'src/beatmap.rs :: impl From<BeatmapState> for Beatmap',
                     'src/section/hit_objects/decode.rs :: impl From<HitObjectsState> for HitObjects (scalar fields)', 'src/section/timing_points/decode.rs :: impl From<TimingPointsState> for TimingPoints', 'src/section/timing_points/decode.rs :: impl From<TimingPoints> for Beatmap'],
